@@ -4,6 +4,7 @@ import (
 	"fmt"
 
 	"fortio.org/log"
+	"grol.io/grol/token"
 )
 
 func ModifyNoOk(node Node, f func(Node) Node) Node {
@@ -50,6 +51,10 @@ func Modify(node Node, f func(Node) (Node, bool)) (Node, bool) { //nolint:funlen
 		newNode.Left, cont = Modify(node.Left, f)
 		if !cont {
 			return nil, false
+		}
+		if node.Token != nil && node.Type() == token.DOT {
+			newNode.Index = node.Index // a field name, not an identifier to resolve (or rewrite).
+			return f(newNode)
 		}
 		newNode.Index, cont = Modify(node.Index, f)
 		if !cont {
